@@ -183,6 +183,20 @@ func (s *sim) send(src, dst *node, m outMsg, released bool) {
 			s.rc.Fault("corrupt")
 			tag += "~"
 		}
+		if m.proto == module.ProtoFastSync {
+			// fast-sync answers of one server to one client travel on one ordered stream: metadata before
+			// data, chunk after chunk (reordering them only makes the client drop the answer and time out)
+			k := [2]int{src.idx, dst.idx}
+			if s.fsLast == nil {
+				s.fsLast = map[[2]int]time.Duration{}
+			}
+			at := s.now() + lat
+			if last, ok := s.fsLast[k]; ok && at <= last {
+				at = last + time.Millisecond
+				lat = at - s.now()
+			}
+			s.fsLast[k] = at
+		}
 		mm := m
 		mm.data = data
 		s.rc.Event("SEND %s +%dms", tag, lat/time.Millisecond)
